@@ -15,7 +15,7 @@ Local Open Scope N_scope.
 Inductive sval :=
 | SNone                              (* n            *)
 | SEmpty                             (* n=           *)
-| SUnq (v : str)                     (* n=v          *)
+| SUnq (v : str)                     (* n=v          (v may contain balanced `(` `)`) *)
 | SQuo (single : bool) (q : str)     (* n='q' n="q"  *)
 | SBrace (e : str).                  (* n={e}        *)
 
@@ -69,13 +69,27 @@ Definition abreak (c : char) : bool :=
    (so `.`, `#`, `>`, `+`, `^`, `*`, `/`, `!`, `:`, `@`, `-`, letters, digits, unicode ... are all in) *)
 Definition asafe (c : char) : bool := negb (c =? c_bslash) && negb (c =? c_dollar) && negb (abreak c).
 
+(* an unquoted VALUE may in addition contain parentheses, as long as they balance *)
+Definition is_paren (c : char) : bool := (c =? c_lparen) || (c =? c_rparen).
+Definition usafe (c : char) : bool := asafe c || is_paren c.
+(* [pdepth d v]: the nesting depth after reading [v] from depth [d]; None if a `)` closes nothing *)
+Fixpoint pdepth (d : nat) (v : str) : option nat :=
+  match v with
+  | [] => Some d
+  | c :: r =>
+      if c =? c_lparen then pdepth (S d) r
+      else if c =? c_rparen then match d with O => None | S d' => pdepth d' r end
+      else pdepth d r
+  end.
+Definition uq_ok (v : str) : Prop := v <> [] /\ forallb usafe v = true /\ pdepth 0 v = Some O.
+
 Definition last_is (c : char) (s : str) : bool := match rev s with x :: _ => x =? c | [] => false end.
 Definition head_is (c : char) (s : str) : bool := match s with x :: _ => x =? c | [] => false end.
 
 Definition sval_ok (v : sval) : Prop :=
   match v with
   | SNone | SEmpty => True
-  | SUnq v => v <> [] /\ forallb asafe v = true
+  | SUnq v => uq_ok v
   | SQuo s q => qpayload (qchar s) q = true        (* any text; the quote, `$`, `\` only escaped *)
   | SBrace e => bal 0 e = true                     (* braces balanced modulo escapes; `$` only escaped *)
   end.
@@ -97,11 +111,28 @@ Definition selem_ok (e : selem) : Prop := word_ok (se_name e) /\ Forall spart_ok
 (* ================================================================ expected token layout *)
 Definition tk1 (k : tkind) (pos : nat) : token := mkTok k pos (pos + 1).
 
+Definition word_tok (pos : nat) (w : str) : token := mkTok (TLiteral w) pos (pos + length w).
+
+(* an unquoted value: maximal runs of safe characters are Literal tokens, each parenthesis a Bracket *)
+Fixpoint uq_toks (fuel : nat) (pos : nat) (v : str) : list token :=
+  match fuel with
+  | O => []
+  | S f =>
+      match v with
+      | [] => []
+      | c :: r =>
+          if c =? c_lparen then tk1 (TBracket true BGroup) pos :: uq_toks f (pos + 1) r
+          else if c =? c_rparen then tk1 (TBracket false BGroup) pos :: uq_toks f (pos + 1) r
+          else let n := span asafe v in
+               word_tok pos (firstn n v) :: uq_toks f (pos + n) (skipn n v)
+      end
+  end.
+
 Definition val_toks (pos : nat) (v : sval) : list token :=
   match v with
   | SNone => []
   | SEmpty => [tk1 (TOperator OpEqual) pos]
-  | SUnq v => [tk1 (TOperator OpEqual) pos; mkTok (TLiteral v) (pos + 1) (pos + 1 + length v)]
+  | SUnq v => tk1 (TOperator OpEqual) pos :: uq_toks (length v) (pos + 1) v
   | SQuo s q =>
       [tk1 (TOperator OpEqual) pos; tk1 (TQuote s) (pos + 1)] ++ text_tokens (pos + 2) q
       ++ [tk1 (TQuote s) (pos + 2 + length q)]
@@ -123,8 +154,6 @@ Fixpoint attrs_toks (pos : nat) (l : list sattr) : list token :=
   | a :: l' =>
       attr_toks pos a ++ space_tok (pos + length (attr_text a)) :: attrs_toks (pos + length (attr_text a) + 1) l'
   end.
-
-Definition word_tok (pos : nat) (w : str) : token := mkTok (TLiteral w) pos (pos + length w).
 
 Definition part_toks (pos : nat) (p : spart) : list token :=
   match p with
@@ -568,6 +597,143 @@ Proof.
       rewrite Nat.add_assoc. reflexivity.
 Qed.
 
+(* ================================================================ unquoted values with parentheses *)
+Lemma seg_lparen g :
+  seg (CA g) [c_lparen] (fun pos => [tk1 (TBracket true BGroup) pos]) (CA (g + 1)) (fun _ => True).
+Proof.
+  apply (seg_token (CA g) c_lparen [] (TBracket true BGroup) (CA (g + 1))).
+  intros prev rest _. cbn [app].
+  rewrite (consume_bracket (CA g) prev c_lparen rest BGroup); try reflexivity.
+  eexists. apply (lit_astop prev c_lparen rest). reflexivity.
+Qed.
+Lemma seg_rparen g :
+  seg (CA g) [c_rparen] (fun pos => [tk1 (TBracket false BGroup) pos]) (CA (g + -1)) (fun _ => True).
+Proof.
+  apply (seg_token (CA g) c_rparen [] (TBracket false BGroup) (CA (g + -1))).
+  intros prev rest _. cbn [app].
+  rewrite (consume_bracket (CA g) prev c_rparen rest BGroup); try reflexivity.
+  eexists. apply (lit_astop prev c_rparen rest). reflexivity.
+Qed.
+
+(* net change of the group counter *)
+Fixpoint pdelta (v : str) : Z :=
+  match v with
+  | [] => 0%Z
+  | c :: r => Z.add (if c =? c_lparen then 1%Z else if c =? c_rparen then (-1)%Z else 0%Z) (pdelta r)
+  end.
+
+Lemma asafe_not_paren c : asafe c = true -> (c =? c_lparen) = false /\ (c =? c_rparen) = false.
+Proof.
+  intros H. destruct (asafe_facts c H) as [_ [_ [_ [_ [_ Hb]]]]].
+  split; [destruct (c =? c_lparen) eqn:E|destruct (c =? c_rparen) eqn:E]; try reflexivity;
+    apply N.eqb_eq in E; subst c; discriminate.
+Qed.
+
+Lemma paren_abreak c : is_paren c = true -> abreak c = true.
+Proof.
+  unfold is_paren. intros H. apply orb_true_iff in H. destruct H as [H|H]; apply N.eqb_eq in H; subst c; reflexivity.
+Qed.
+
+Lemma pdelta_asafe : forall w v, forallb asafe w = true -> pdelta (w ++ v) = pdelta v.
+Proof.
+  induction w as [|c w IH]; intros v H; [reflexivity|].
+  cbn [forallb] in H. apply andb_true_iff in H. destruct H as [Hc Hw].
+  destruct (asafe_not_paren c Hc) as [H1 H2]. cbn [app pdelta]. rewrite H1, H2, IH by exact Hw. reflexivity.
+Qed.
+
+Lemma Forall_forallb {A} (p : A -> bool) l : Forall (fun x => p x = true) l -> forallb p l = true.
+Proof. intros H. apply forallb_forall. apply Forall_forall. exact H. Qed.
+
+Lemma forallb_skipn {A} (p : A -> bool) n l : forallb p l = true -> forallb p (skipn n l) = true.
+Proof.
+  intros H. rewrite <- (firstn_skipn n l) in H. rewrite forallb_app in H. apply andb_true_iff in H. tauto.
+Qed.
+
+Lemma toks_uq : forall n v, (length v <= n)%nat -> forallb usafe v = true ->
+  forall g prev pos rest, astop rest ->
+  toks 0 (CA g) prev pos (v ++ rest) =
+    tcons (uq_toks n pos v) (toks 0 (CA (g + pdelta v)) (last_prev prev v) (pos + length v) rest).
+Proof.
+  induction n as [|n IH]; intros v Hlen Hsafe g prev pos rest Hst.
+  - destruct v; [|cbn [length] in Hlen; lia].
+    cbn [app uq_toks pdelta length]. rewrite Z.add_0_r, Nat.add_0_r. unfold last_prev. cbn [rev].
+    symmetry. apply tcons_nil.
+  - destruct v as [|c r].
+    { cbn [app uq_toks pdelta length]. rewrite Z.add_0_r, Nat.add_0_r. unfold last_prev. cbn [rev].
+      symmetry. apply tcons_nil. }
+    cbn [length] in Hlen. pose proof Hsafe as Hsafe0.
+    cbn [forallb] in Hsafe. apply andb_true_iff in Hsafe. destruct Hsafe as [Hc Hr].
+    cbn [uq_toks pdelta].
+    destruct (c =? c_lparen) eqn:E1.
+    { apply N.eqb_eq in E1. subst c.
+      change ((c_lparen :: r) ++ rest) with ([c_lparen] ++ (r ++ rest)).
+      rewrite (seg_lparen g prev pos (r ++ rest) I).
+      rewrite (IH r ltac:(lia) Hr (g + 1)%Z _ _ rest Hst).
+      rewrite <- tcons_app, <- last_prev_app. cbn [app length].
+      replace (g + 1 + pdelta r)%Z with (g + (1 + pdelta r))%Z by lia.
+      replace (pos + 1 + length r)%nat with (pos + S (length r))%nat by lia.
+      reflexivity. }
+    destruct (c =? c_rparen) eqn:E2.
+    { apply N.eqb_eq in E2. subst c.
+      change ((c_rparen :: r) ++ rest) with ([c_rparen] ++ (r ++ rest)).
+      rewrite (seg_rparen g prev pos (r ++ rest) I).
+      rewrite (IH r ltac:(lia) Hr (g + -1)%Z _ _ rest Hst).
+      rewrite <- tcons_app, <- last_prev_app. cbn [app length].
+      replace (g + -1 + pdelta r)%Z with (g + (-1 + pdelta r))%Z by lia.
+      replace (pos + 1 + length r)%nat with (pos + S (length r))%nat by lia.
+      reflexivity. }
+    (* a run of safe characters *)
+    assert (Hca : asafe c = true).
+    { unfold usafe, is_paren in Hc. rewrite E1, E2 in Hc. cbn [orb] in Hc. rewrite orb_false_r in Hc. exact Hc. }
+    set (v := c :: r) in *.
+    set (k := span asafe v).
+    set (w := firstn k v). set (v' := skipn k v).
+    assert (HW : forallb asafe w = true) by (apply Forall_forallb, span_all).
+    assert (HV : match v' with [] => True | x :: _ => asafe x = false end) by apply span_stop.
+    assert (HT : w ++ v' = v) by apply firstn_skipn.
+    assert (Hk : length w = k) by apply span_len.
+    assert (Hwne : w <> []).
+    { unfold w, k, v. cbn [span]. rewrite Hca. cbn [firstn]. discriminate. }
+    assert (Hv'safe : forallb usafe v' = true) by (apply forallb_skipn; exact Hsafe0).
+    assert (Hlen' : (length v' <= n)%nat).
+    { assert (length v = length w + length v')%nat by (rewrite <- HT, app_length; reflexivity).
+      destruct w; [congruence|]. cbn [length] in *. unfold v in H. cbn [length] in H. lia. }
+    assert (Hst' : astop (v' ++ rest)).
+    { destruct v' as [|x v'']; [exact Hst|]. cbn [app astop]. apply paren_abreak.
+      cbn [forallb] in Hv'safe. apply andb_true_iff in Hv'safe. destruct Hv'safe as [Hx _].
+      unfold usafe in Hx. rewrite HV in Hx. exact Hx. }
+    clearbody w v' k.
+    rewrite <- HT at 1. rewrite <- app_assoc.
+    rewrite (seg_aword g w Hwne HW prev pos (v' ++ rest) Hst').
+    rewrite (IH v' Hlen' Hv'safe g _ _ rest Hst).
+    assert (Hd : ((0 + pdelta r) = pdelta v')%Z).
+    { replace (0 + pdelta r)%Z with (pdelta v) by (unfold v; cbn [pdelta]; rewrite E1, E2; reflexivity).
+      rewrite <- HT. apply pdelta_asafe. exact HW. }
+    rewrite Hd. rewrite <- tcons_app, <- (last_prev_app prev w v'), HT.
+    replace (pos + length w + length v')%nat with (pos + length v)%nat
+      by (rewrite <- HT, app_length; lia).
+    rewrite Hk. reflexivity.
+Qed.
+
+Lemma pdepth_delta : forall v d d', pdepth d v = Some d' -> pdelta v = (Z.of_nat d' - Z.of_nat d)%Z.
+Proof.
+  induction v as [|c r IH]; intros d d' H.
+  - cbn in H. injection H as <-. cbn. lia.
+  - cbn [pdepth pdelta] in *. destruct (c =? c_lparen).
+    + rewrite (IH _ _ H). lia.
+    + destruct (c =? c_rparen).
+      * destruct d as [|d0]; [discriminate|]. rewrite (IH _ _ H). lia.
+      * rewrite (IH _ _ H). lia.
+Qed.
+
+Lemma seg_uq g v :
+  uq_ok v -> seg (CA g) v (fun pos => uq_toks (length v) pos v) (CA g) astop.
+Proof.
+  intros [_ [Hsafe Hbal]] prev pos rest Hst.
+  rewrite (toks_uq (length v) v (le_n _) Hsafe g prev pos rest Hst).
+  rewrite (pdepth_delta v 0 0 Hbal). cbn [Z.of_nat Z.sub Z.opp]. rewrite Z.add_0_r. reflexivity.
+Qed.
+
 (* ================================================================ one attribute *)
 Lemma abreak_eq : abreak c_eq = true. Proof. reflexivity. Qed.
 
@@ -579,9 +745,8 @@ Proof.
   destruct v as [| |v|s q|e]; cbn [sval_ok val_text]; intros Hok.
   - apply (seg_weaken _ _ _ _ (fun _ => True)); [auto|]. apply seg_nil.
   - apply (seg_weaken _ _ _ _ (fun _ => True)); [auto|]. apply seg_eq.
-  - destruct Hok as [Hne HF].
-    change (c_eq :: v) with ([c_eq] ++ v).
-    eapply seg_app'; [apply seg_eq|apply seg_aword; assumption|(intros; exact I)|pos_eq].
+  - change (c_eq :: v) with ([c_eq] ++ v).
+    eapply seg_app'; [apply seg_eq|apply seg_uq; exact Hok|(intros; exact I)|intros pos; reflexivity].
   - (* quoted *)
     apply (seg_weaken _ _ _ _ (fun _ => True)); [auto|].
     change (c_eq :: qchar s :: q ++ [qchar s]) with ([c_eq] ++ ([qchar s] ++ (q ++ [qchar s]))).
